@@ -64,6 +64,19 @@ func teardownStaleCells() []cellSpec {
 	return out
 }
 
+// teardownFaultCells: one release operation of cleanup() fails once - the eBPF map update (harness-owned callback
+// returns an error and removes nothing) or the Accounting-Stop (scripted RADIUS server refuses it).  The pool's
+// Release has no error return.
+func teardownFaultCells() []cellSpec {
+	var out []cellSpec
+	for _, p := range teardownPaths {
+		for _, f := range []string{"maps", "acct-stop"} {
+			out = append(out, cellSpec{Kind: "teardown", Path: p, Prefix: "established", Second: "none", Fault: f})
+		}
+	}
+	return out
+}
+
 func teardownCells(parked bool) []cellSpec {
 	var out []cellSpec
 	for _, p := range teardownPaths {
@@ -107,6 +120,13 @@ func genTeardown(s src, c cellSpec, base *params) *tcase {
 	tc.P.CoABy = pick(s, "coa.by", by)
 	if secondPath(c.Second) == "terminate-all" {
 		tc.P.BgMACs = nil // the second termination would legitimately end the background sessions too
+	}
+	tc.Fault = c.Fault
+	switch c.Fault {
+	case "maps":
+		tc.P.NAT, tc.P.QoS = true, true
+	case "acct-stop":
+		tc.P.Radius = true
 	}
 	if secondShape(c.Second) == "stale" && len(tc.P.BgMACs) == 0 {
 		tc.P.BgMACs = []hexb{genMAC(s, "bg0", 1)} // the mass termination needs a list of at least two sessions
@@ -206,6 +226,7 @@ type tdRun struct {
 	gate *gate
 
 	mu       sync.Mutex
+	failMaps int            // the next n map removals for the session under test fail (and remove nothing)
 	padtsFor map[string]int // PADTs sent per Acct-Session-Id
 	padts    int
 	termReqs int
@@ -220,6 +241,15 @@ type tdRun struct {
 // ebpfUpdate is the updateEBPFMaps callback: add (remove=false) or remove the session's fast-path state.
 func (x *tdRun) ebpfUpdate(s *pppoe.Session, remove bool) error {
 	if remove {
+		x.mu.Lock()
+		fail := x.failMaps > 0 && x.me != nil && s == x.me.s
+		if fail {
+			x.failMaps--
+		}
+		x.mu.Unlock()
+		if fail {
+			return fmt.Errorf("map update failed (injected)")
+		}
 		x.gate.pass("maps", s.SessionID)
 		_ = x.w.loader.RemoveSubscriber(ebpf.MACToUint64(s.ClientMAC))
 		if s.ClientIP != nil {
@@ -503,6 +533,17 @@ func runTeardownInBubble(tc *tcase, rs *radServer, res *result) {
 
 	switch tc.shape() {
 	case "none", "seq":
+		switch tc.Fault {
+		case "maps":
+			x.mu.Lock()
+			x.failMaps = 1
+			x.mu.Unlock()
+		case "acct-stop":
+			rs.failNextStops(1)
+		}
+		if tc.Fault != "" {
+			res.logf("  (fault: the next %s of the session fails)", tc.Fault)
+		}
 		res.logf("  %s", tc.Path)
 		x.terminate(tc.Path)
 		synctest.Wait()
